@@ -453,3 +453,41 @@ def recorder_forward(chk, rule, fn, through=("Deref::deref",), args_from=1, allo
     if expect_sites is not None and len(tcs) != expect_sites:
         return chk.ob(rule, where, False, f"{len(tcs)} call sites of the inner Recorder::{name}, expected {expect_sites}", fn.loc())
     return chk.ob(rule, where, True, f"forwards to Recorder::{name} with its parameters unchanged ({len(tcs)} call site)", fn.loc())
+
+
+# ---------------------------------------------------------------------------------------------
+# per-variant arm analysis of a `match` on an enum
+# ---------------------------------------------------------------------------------------------
+def enum_switches(fn, enum_suffix):
+    b = fn.body
+    return [i for i in range(b.n) if b.term(i)["k"] == "switch" and strip_generics(b.term(i).get("enum") or "").endswith(enum_suffix)]
+
+
+def enum_arms(fn, enum_suffix, which=0):
+    """{variant: {'blocks', 'calls', 'ret'}} for the `which`-th switch on the enum in fn (None if absent)."""
+    sws = enum_switches(fn, enum_suffix)
+    if len(sws) <= which:
+        return None
+    b = fn.body
+    sw = sws[which]
+    t = b.term(sw)
+    edges = {a["variant"]: a["bb"] for a in t["arms"] if a.get("variant")}
+    rest = [v for v in (t.get("all_variants") or []) if v not in edges]
+    if len(rest) == 1 and b.term(t["otherwise"])["k"] != "unreachable":
+        edges[rest[0]] = t["otherwise"]
+    sy = Sym(fn)
+    out = {}
+    for v, tgt in edges.items():
+        blocks = {x for x in b.reachable(tgt) if b.edge_dominates((sw, tgt), x)}
+        calls = [c for c in fn.body.calls() if c.bb in blocks]
+        rets = []
+        for i in sorted(blocks):
+            for s in b.blocks[i]["s"]:
+                if s["k"] == "assign" and s["p"]["l"] == 0 and not s["p"].get("pr"):
+                    rets.append(strip_sym(sy.rvalue(s["rv"], 0, frozenset())))
+            tt = b.term(i)
+            if tt["k"] == "call" and tt["dest"]["l"] == 0 and not tt["dest"].get("pr"):
+                rets.append(("call", tt.get("resolved") or tt.get("callee") or "?", tuple(sy.operand(a) for a in tt["args"]), tt.get("callee")))
+        out[v] = {"blocks": blocks, "calls": calls, "ret": rets[0] if len(rets) == 1 else (("phi", tuple(rets)) if rets else None), "target": tgt}
+    out["__switch__"] = sw
+    return out
